@@ -440,9 +440,18 @@ impl PqMapper<RelationExpr, RelationExpr, (), ()> for SortingInference<'_> {
 /// Makes sure all relation instances have assigned names. Tries to infer from table references.
 fn assign_names(query: SqlQuery, ctx: &mut Context) -> SqlQuery {
     // generate CTE names, make sure they don't clash
+    // (a relation that this query does not define is a table of the database:
+    // its name is given, so it is claimed first and never replaced)
+    let defined_here: HashSet<_> = query.ctes.iter().map(|cte| cte.tid).collect();
+    let mut names: HashSet<Ident> = (ctx.anchor.table_decls.values())
+        .filter(|d| !defined_here.contains(&d.id))
+        .filter_map(|d| d.name.clone())
+        .collect();
     let decls = ctx.anchor.table_decls.values_mut();
-    let mut names = HashSet::new();
     for decl in decls.sorted_by_key(|d| d.id.get()) {
+        if decl.name.is_some() && !defined_here.contains(&decl.id) {
+            continue;
+        }
         while decl.name.is_none() || names.contains(decl.name.as_ref().unwrap()) {
             decl.name = Some(Ident::from_name(ctx.anchor.table_name.gen()));
         }
